@@ -31,12 +31,12 @@ open Manticore Manticore.SmbIR Manticore.Gen.SmbCommands
     field. -/
 theorem non_mirror_commands :
     (commands.filter (fun c => !Mirror c)).map (·.name) =
-      ["FindCloseResponse", "FindResponse", "FindUniqueResponse", "LockAndReadResponse",
-       "LockingAndxRequest", "NegotiateRequest", "NegotiateResponse", "OpenAndxRequest", "OpenAndxResponse",
-       "QueryInformation2Response", "QueryInformationResponse", "ReadRawRequest", "ReadResponse", "RenameRequest",
-       "SessionSetupAndxRequest", "SessionSetupAndxResponse", "TransactionRequest", "TreeConnectRequest",
-       "WriteAndCloseRequest", "WriteAndUnlockRequest", "WriteAndxRequest", "WriteMpxRequest", "WriteRawRequest",
-       "WriteRequest"] := by decide +kernel
+      ["FindCloseResponse", "FindResponse", "FindUniqueResponse", "LockAndReadResponse", "LockingAndxRequest",
+       "NegotiateRequest", "NegotiateResponse", "OpenAndxRequest", "OpenAndxResponse",
+       "QueryInformation2Response", "QueryInformationResponse", "ReadRawRequest", "ReadResponse",
+       "RenameRequest", "SessionSetupAndxRequest", "SessionSetupAndxResponse", "TransactionRequest",
+       "TreeConnectRequest", "WriteAndCloseRequest", "WriteAndUnlockRequest", "WriteAndxRequest",
+       "WriteMpxRequest", "WriteRawRequest", "WriteRequest"] := by decide +kernel
 
 /-- **every AndX command consumes its AndX block**: each of the 16 structures whose `IsAndX` returns
     true has the stanza (early returns on an empty parameter stream only, `AndX.Unmarshal` of the
@@ -51,12 +51,9 @@ theorem andx_consumed :
 theorem known_roundtrip_findings :
     commands.filterMap (fun c => (knownRtKind c).map (fun k => (k, c.name))) =
       [(.fixedEntrySize, "FindResponse"), (.fixedEntrySize, "FindUniqueResponse"),
-       (.fieldNotMarshalled, "LockAndReadResponse"),
        (.fieldNotMarshalled, "NegotiateRequest"), (.fieldNotMarshalled, "NegotiateResponse"),
-       (.fieldNotMarshalled, "OpenAndxResponse"),
-       (.fieldNotUnmarshalled, "QueryInformation2Response"), (.fieldNotMarshalled, "QueryInformationResponse"),
-       (.conditionalField, "ReadRawRequest"),
-       (.fieldNotMarshalled, "ReadResponse"), (.readsWholeBuffer, "TreeConnectRequest"),
+       (.fieldNotMarshalled, "OpenAndxResponse"), (.fieldNotUnmarshalled, "QueryInformation2Response"),
+       (.conditionalField, "ReadRawRequest"), (.readsWholeBuffer, "TreeConnectRequest"),
        (.conditionalField, "WriteAndCloseRequest"), (.conditionalField, "WriteAndxRequest"),
        (.conditionalField, "WriteRawRequest")] := by decide +kernel
 
@@ -212,8 +209,9 @@ theorem smb_reencode (c : Cmd) (hmem : c ∈ commands) (hm : Mirror c = true) (e
     WriteMpxRequest (and WriteAndxRequest): the last buffer read not followed by an advance of `offset`. -/
 theorem loop_mirror_commands :
     (commands.filter (fun c => MirrorLoops c && !Mirror c)).map (·.name) =
-      ["LockingAndxRequest", "OpenAndxRequest", "SessionSetupAndxRequest", "SessionSetupAndxResponse",
-       "TransactionRequest", "WriteAndxRequest", "WriteMpxRequest", "WriteRawRequest"] := by decide +kernel
+      ["LockingAndxRequest", "OpenAndxRequest", "QueryInformationResponse", "SessionSetupAndxRequest",
+       "SessionSetupAndxResponse", "TransactionRequest", "WriteAndxRequest", "WriteMpxRequest",
+       "WriteRawRequest"] := by decide +kernel
 
 /-- `MirrorLoops` extends `Mirror`: each of the 90 `Mirror` commands satisfies it -/
 theorem mirror_loops_extends : commands.all (fun c => !Mirror c || MirrorLoops c) = true := by decide +kernel
@@ -228,10 +226,10 @@ theorem mirror_loops_extends : commands.all (fun c => !Mirror c || MirrorLoops c
     the parameter block. -/
 theorem non_mirror_loops_commands :
     (commands.filter (fun c => !MirrorLoops c)).map (·.name) =
-      ["FindCloseResponse", "FindResponse", "FindUniqueResponse", "LockAndReadResponse",
-       "NegotiateRequest", "NegotiateResponse", "OpenAndxResponse",
-       "QueryInformation2Response", "QueryInformationResponse", "ReadRawRequest", "ReadResponse", "RenameRequest",
-       "TreeConnectRequest", "WriteAndCloseRequest", "WriteAndUnlockRequest", "WriteRequest"] := by decide +kernel
+      ["FindCloseResponse", "FindResponse", "FindUniqueResponse", "LockAndReadResponse", "NegotiateRequest",
+       "NegotiateResponse", "OpenAndxResponse", "QueryInformation2Response", "ReadRawRequest", "ReadResponse",
+       "RenameRequest", "TreeConnectRequest", "WriteAndCloseRequest", "WriteAndUnlockRequest",
+       "WriteRequest"] := by decide +kernel
 
 /-- **C04, generic round trip over the loop fragment.**  As `mirror_roundtrip`, for every command whose
     regenerated programs satisfy `MirrorLoops`: the only statements outside the straight-line fragment are
